@@ -25,7 +25,8 @@ ASSUMPTIONS = [
     "programs whose addresses would cross $100 or leave 0..65535 under the shift are re-drawn with a smaller D",
 ]
 HEALTH = {"T:shift": 0.04, "T:rename": 0.04, "T:layout": 0.04, "T:suffix": 0.04, "abs_and_rel": 0.08}
-EXHAUSTIVE = {}
+EXHAUSTIVE = {"quick": ["EQU chains (literal / alias / expression, 8 base spellings x 3 shapes x 4 uses) x 3 renamings that change the alphabetical order of the names"],
+              "thorough": ["as quick"]}
 
 _RESERVED = set(R.MNEMONICS) | {"A", "B", "D", "X", "Y", "U", "S", "CC", "DP", "PC", "PCR", "END", "ORG", "EQU", "SET", "RMB",
                                 "FCB", "FDB", "FCC", "SETDP", "INCLUDE", "NAM"}
@@ -47,7 +48,36 @@ _case = st.fixed_dictionaries(dict(prog=st.one_of(proggen.rich_program, proggen.
 
 
 def enumerated(tier, seed):
-    return []
+    # EQU chains (literal -> alias -> expression) used inside operand expressions, renamed so that the alphabetical
+    # order of the names changes: nothing about the output may depend on what the symbols are called
+    import itertools
+    n = 0
+    for base, sp in ((16, "dec"), (16, "hex2"), (16, "hex4"), (200, "dec"), (255, "hex2"), (256, "dec"), (4660, "hex4"), (-3, "dec")):
+        for shape in (0, 1, 2):
+            for use in (0, 1, 2, 3):
+                for order in ((0, 1, 2, 3), (3, 2, 1, 0), (1, 3, 0, 2)):
+                    n += 1
+                    equ = [{"lab": "BASE", "k": "equ", "val": {"lit": base, "sp": sp}},
+                           {"lab": "PORT", "k": "equ", "val": {"sym": "BASE", "op": "", "c": 0}},
+                           {"lab": "OFFS", "k": "equ", "val": {"sym": "PORT", "op": "+", "c": 1}}]
+                    if shape == 1:
+                        equ = [equ[2], equ[1], equ[0]]
+                    elif shape == 2:
+                        equ = [equ[1], {"lab": "MID", "k": "equ", "val": {"sym": "PORT", "op": "", "c": 0}},
+                               {"lab": "OFFS", "k": "equ", "val": {"sym": "MID", "op": "-", "c": 1}}, equ[0]]
+                    ref = {"sym": "OFFS", "op": "+", "c": 1}
+                    if base < 0 and use in (0, 3):
+                        continue
+                    stmt = [{"lab": "", "k": "mem", "mn": "LDA", "val": ref, "force": ""},
+                            {"lab": "", "k": "imm16", "mn": "LDX", "val": ref},
+                            {"lab": "", "k": "idx", "mn": "STA", "reg": "Y", "ind": False, "val": ref},
+                            {"lab": "", "k": "mem", "mn": "JMP", "val": {"sym": "OFFS", "op": "", "c": 0}, "force": ""}][use]
+                    body = [{"lab": "START", "k": "inh", "mn": "NOP"}, stmt, {"lab": "", "k": "br", "mn": "BRA", "to": "START"},
+                            {"lab": "TAIL", "k": "fdb", "vals": [{"sym": "START", "op": "", "c": 0}]}]
+                    stmts = [{"lab": "", "k": "org", "addr": 0x1000}] + (equ + body if n % 2 else body + equ)
+                    names = ["QA", "QB", "QC", "QD", "QE", "QF"]
+                    perm = [names[i] for i in order] + names[4:]
+                    yield dict(prog={"org": 0x1000, "stmts": stmts}, T=dict(kind="rename", names=perm))
 
 
 def searches(tier):
